@@ -51,6 +51,7 @@ pub struct EnvCensus {
     pub full_batches: u64,
     pub overfull_batches: u64,
     pub crowded_batches: u64,
+    pub large_volume_sessions: u64,
     pub same_batch_targets: u64,
     pub multi_instruction_orders: u64,
     pub trades: u64,
@@ -79,7 +80,7 @@ impl EnvCensus {
         macro_rules! add { ($($f:ident),*) => { $( self.$f += o.$f; )* } }
         add!(
             sessions, steps, instructions, new_orders, cancels, modifies, empty_batches, full_batches,
-            overfull_batches, crowded_batches, same_batch_targets, multi_instruction_orders, trades, schedules_by_hint,
+            overfull_batches, crowded_batches, large_volume_sessions, same_batch_targets, multi_instruction_orders, trades, schedules_by_hint,
             schedules_by_search, search_candidates, submissions_checked, rejected_submissions,
             rows_compared, asymmetric_rows, deep_level_rows, toggles, toggles_after_submission, steps_while_disabled, market_rejected,
             trades_after_reenable, cross_asset_id_collisions, drains, tie_like_stamps, multi_asset_sessions
@@ -133,13 +134,17 @@ pub fn session<E: SimEnv>(cfg: &SessionCfg, cs: &mut EnvCensus, out: &mut Sessio
         }
     };
     let t0 = if rng.chance(0.3) { rng.below(1 << 40) } else if rng.chance(0.2) { 0 } else { rng.below(100) };
-    let mut trading = !rng.chance(if on(E_FLAG) { 0.3 } else { 0.1 });
+    // large-volume sessions keep trading enabled: their takers are sized to trade completely, resting them would leave the valid range
+    let mut trading = gen.large || !rng.chance(if on(E_FLAG) { 0.3 } else { 0.1 });
     let mut env = E::create(t0, &gen.ticks, step_size, trading);
     let mut shadow: Shadow<E::Book> = Shadow::new(t0, &gen.ticks, trading);
     let mut rshadow = RefShadow::new(t0, &gen.ticks, trading);
     let mut xr = Xoroshiro128StarStar::seed_from_u64(rng.next());
     let n_steps = rng.range(3, cfg.max_steps as u64) as usize;
     cs.sessions += 1;
+    if gen.large {
+        cs.large_volume_sessions += 1;
+    }
     cs.per_type_sessions[cfg.env_idx] += 1;
     if assets > 1 {
         cs.multi_asset_sessions += 1;
@@ -169,7 +174,7 @@ pub fn session<E: SimEnv>(cfg: &SessionCfg, cs: &mut EnvCensus, out: &mut Sessio
         }
         cs.steps += 1;
         // ---- between steps: maybe toggle trading ----
-        if rng.chance(cfg.toggle_rate) {
+        if !gen.large && rng.chance(cfg.toggle_rate) {
             let before = if on(E_FLAG) || on(E_INVIS) { Some(env.obs()) } else { None };
             trading = !trading;
             env.set_trading(trading);
@@ -229,6 +234,13 @@ pub fn session<E: SimEnv>(cfg: &SessionCfg, cs: &mut EnvCensus, out: &mut Sessio
             }
         };
         let mut batch = gen.batch(&mut rng, &env, n);
+        if gen.large && std::env::var("BVMON_TRACE").is_ok() {
+            for a in 0..assets {
+                let v = env.book(a).views();
+                eprintln!("step {} asset {} bid_vol {} ask_vol {} bid_ask {:?} touch {:?} {:?} step_size {} trading {}", step, a, v.bid_vol, v.ask_vol, v.bid_ask, v.bid_best, v.ask_best, step_size, trading);
+            }
+            eprintln!("   batch {:?}", batch);
+        }
         // optional off-grid submissions (never enter the batch: they are rejected at submission)
         let mut offgrid: Vec<(usize, Ins)> = Vec::new();
         if cfg.offgrid_rate > 0.0 {
@@ -411,7 +423,7 @@ pub fn session<E: SimEnv>(cfg: &SessionCfg, cs: &mut EnvCensus, out: &mut Sessio
 
         // ---- a toggle between the submissions and the step: instructions queued under one flag
         //      are processed under the other ----
-        if rng.chance(cfg.toggle_rate / 2.0) {
+        if !gen.large && rng.chance(cfg.toggle_rate / 2.0) {
             trading = !trading;
             env.set_trading(trading);
             shadow.set_trading(trading);
